@@ -89,6 +89,7 @@ func check(c *enum.Ctx, k kase) {
 		return
 	}
 	var got []seqgen.Rec
+	comp := seqgen.NewCompanion(k.Format) // a second reader, of another configuration, alive and advanced alternately
 	if c.Guard(k.Format+"/read-panic", k, func() {
 		var rd seqio.Reader
 		if k.Format == "fasta" {
@@ -96,9 +97,12 @@ func check(c *enum.Ctx, k kase) {
 		} else {
 			rd = fastq.NewReader(feed(text, k.Feed), seqgen.Template(k.Q, false, enc))
 		}
-		got, _, err = seqgen.ReadAll(rd, withQ, len(k.Recs)+2)
+		got, _, err = seqgen.ReadAllWith(rd, comp, withQ, len(k.Recs)+2)
 	}) {
 		return
+	}
+	if msg := comp.Verdict(); msg != "" {
+		fail("interference", "%s (while reading %q)", msg, clip(text))
 	}
 	if err != nil {
 		fail("read-error", "reading back %q: %v", clip(text), err)
@@ -118,7 +122,7 @@ func clip(b []byte) string {
 }
 
 func run(c *enum.Ctx) {
-	c.Rule("record set R = 36 name x description combinations (names \"\", a, >, @x, +, a>b@+; descriptions \"\", d, 'two words', >, @, +x) x letters from every string of length 0..3 (thorough 4) over {a,c,N,-} (protein {a,w,*}); all lists of <=2 (thorough 3, reduced) records; boundary lengths 4095..12289 with position dependent fill; FASTA widths {1,2,3,7,60,4096,4097,10000} x Seq/QSeq x DNA/protein; FASTQ x QID on/off x 5 Phred-offset encodings x quality vectors over {lowest, '@'-producing, '+'-producing, highest}; reader fed whole, one byte at a time, and with data+EOF together; non-trivial = lists with >= 1 record")
+	c.Rule("record set R = 36 name x description combinations (names \"\", a, >, @x, +, a>b@+; descriptions \"\", d, 'two words', >, @, +x) x letters from every string of length 0..3 (thorough 4) over {a,c,N,-} (protein {a,w,*}); all lists of <=2 (thorough 3, reduced) records; boundary lengths 4095..12289 with position dependent fill; FASTA widths {1,2,3,7,60,4096,4097,10000} x Seq/QSeq x DNA/protein; FASTQ x QID on/off x 5 Phred-offset encodings x quality vectors over {lowest, '@'-producing, '+'-producing, highest}; reader fed whole, one byte at a time, and with data+EOF together; every file is read alternately with a companion reader of another configuration (FASTA: a 5000-letter line and width-3 wrapping; FASTQ: a Solexa-encoded file), which must read its own records; non-trivial = lists with >= 1 record")
 	c.Assume("names without whitespace, single-line trimmed descriptions, sequences at offset 0", "Illumina1_5 scores start at 2 (its printable range)", "FASTA does not carry qualities; FASTQ with a plain template carries letters only")
 	maxL := 3
 	if !c.Quick {
